@@ -17,7 +17,11 @@ RULE = ('histories of 3-30 operations (phases=, phase=, reduce_phases, as_stream
         'returned and the exception class of the first raise are compared with the Coq model (values to 1e-9, structure '
         'exactly).  thorough adds all depth-4 histories over an 8-operation alphabet from every phase subset of size <= 3. '
         'non-trivial = at least two operations returned and the observation changed; distinct = distinct case hash')
-ASSUMPTIONS = ['float rounding is not modelled (dyadic inputs; values compared to 1e-9 relative, structure exactly)',
+ASSUMPTIONS = ['Stream.vle/.lle/.sle rewrite the phase label before converting (known findings C12:vle-relabels-solid, '
+               'C12:vle-S-raises, C12:lle-relabels-nonliquid, C12:sle-relabels-gas, C12:sle-S-into-l): the accessor clause is '
+               'proved only for MultiStreams and for Streams whose phase is one of the equilibrium phases '
+               '(C12_accessor_moves_nothing_refuted / _partial)',
+               'float rounding is not modelled (dyadic inputs; values compared to 1e-9 relative, structure exactly)',
                'a history stops at the first exception (the half-converted object a failed Stream.phases assignment leaves '
                'behind is not explored further)',
                'views_live is about sub-streams that are still in the parent\'s _streams cache: a view obtained before the '
@@ -144,7 +148,7 @@ CORPUS = [
     # DESIGN.md section 5 item 14: view detached after ms.phases = ...
     {'init': {'kind': 'multi', 'phases': ['g', 'l'], 'rows': [[1., 2., 0.], [0., 0., 0.]], 'T': 300., 'P': 101325.},
      'ops': [['view', 'l'], ['wview', 0, 0, 5.], ['phases', ['g', 'l', 's']], ['wview', 0, 0, 7.], ['wpar', 'l', 1, 2.]]},
-    # Stream accessors relabel (solid -> liquid) / raise for 'S'
+    # Stream accessors relabel (solid -> liquid) / raise for 'S' (known findings, see WITNESSES)
     {'init': {'kind': 'single', 'phase': 's', 'flow': [1., 0., 0.], 'T': 300., 'P': 101325.}, 'ops': [['vle']]},
     {'init': {'kind': 'single', 'phase': 'S', 'flow': [1., 0., 0.], 'T': 300., 'P': 101325.}, 'ops': [['vle']]},
     {'init': {'kind': 'single', 'phase': 'S', 'flow': [1., 0., 0.], 'T': 300., 'P': 101325.}, 'ops': [['sle']]},
@@ -152,10 +156,24 @@ CORPUS = [
     # set_data refuses when the current content has a phase the snapshot lacks
     {'init': {'kind': 'multi', 'phases': ['L', 'l'], 'rows': [[0., 2., 0.], [1., 0., 0.]], 'T': 310., 'P': 2000.},
      'ops': [['save'], ['phases', ['g', 'l', 'L']], ['wpar', 'g', 0, 3.], ['T', 400.], ['restore', 0]]},
-    # empty single-phase stream: conversion to a phase set without its label raises
+    # empty single-phase stream converted to a phase set without its label (raised before repo commit 635bcdf)
     {'init': {'kind': 'single', 'phase': 'l', 'flow': [0., 0., 0.], 'T': 300., 'P': 101325.}, 'ops': [['phases', ['g', 's']]]},
+    # snapshot of a one-phase MultiStream restored into a Stream / MultiStream (repo commit 684aafd)
+    {'init': {'kind': 'multi', 'phases': ['s'], 'rows': [[1., 0., 2.]], 'T': 310., 'P': 2000.},
+     'ops': [['save'], ['wpar', 's', 0, 3.], ['phases', ['g', 's', 'l']], ['view', 's'], ['restore', 0], ['T', 400.], ['save'],
+             ['phases', ['L', 's']], ['restore', 0], ['restore', 1]]},
 ]
-WITNESSES = []
+def _single(phase):
+    return {'kind': 'single', 'phase': phase, 'flow': [1., 0., 2.], 'T': 300., 'P': 101325.}
+# witnesses of C12_accessor_moves_nothing_refuted: the Stream accessors rewrite the phase label on purpose
+# (a solid is flashed as liquid); by the property text the material leaves its phase => known findings
+WITNESSES = [
+    {'key': 'C12:vle-relabels-solid', 'case': {'init': _single('s'), 'ops': [['vle']]}},
+    {'key': 'C12:vle-S-raises', 'case': {'init': _single('S'), 'ops': [['vle']]}},
+    {'key': 'C12:lle-relabels-nonliquid', 'case': {'init': _single('g'), 'ops': [['lle']]}},
+    {'key': 'C12:sle-relabels-gas', 'case': {'init': _single('g'), 'ops': [['sle']]}},
+    {'key': 'C12:sle-S-into-l', 'case': {'init': _single('S'), 'ops': [['sle']]}},
+]
 
 # ------------------------------------------------------------------ implementation side
 def build(case):
@@ -450,6 +468,12 @@ def oracle(case):
 
 def finding_key(case, msg):
     head = msg.split(':')[0]
+    if head in ('vle', 'lle', 'sle'):
+        if 'raised' in msg:
+            return 'C12:vle-S-raises' if head == 'vle' else f'C12:{head}-raises'
+        if head == 'vle': return 'C12:vle-relabels-solid'
+        if head == 'lle': return 'C12:lle-relabels-nonliquid'
+        return 'C12:sle-relabels-gas' if "material of phase 'g' has no place" in msg else 'C12:sle-S-into-l'
     if head.startswith('view '): head = 'view-TP'
     if 'raised' in msg: head += '-raised'
     if 'has no place' in msg: head += '-no-place'
